@@ -80,6 +80,8 @@ class World:
             self.cluster.after_command = self._cmd_after
             self.cluster.on_accept = self._note_accepted
             self.cluster.on_start = self._note_start
+            if self.backend == "slurm" and kn.get("cluster_name"):
+                self.cluster.cluster_name = kn["cluster_name"]
             FakePopen.cluster = self.cluster
             if self.backend == "slurm" and kn.get("sacct_batch"):
                 import gwf.backends.slurm as S
